@@ -1,7 +1,7 @@
 """C17 - Text table dumps reload to the same tree sequence (structural clauses)."""
 from __future__ import annotations
 
-from . import lib_py
+from . import lib_py, lib_newick, lib_module, lib_order, lib_schema
 
 LEVEL = "other"
 EXPLANATION = ("Writer/reader column agreement between dump_text and the seven parse_* functions, header-driven token indexing, "
@@ -14,4 +14,12 @@ def run(ctx):
     lib_py.text_agreement(ctx, py)
     lib_py.header_indexing(ctx, py)
     lib_py.text_metadata_symmetry(ctx, py)
+    lib_py.optional_index_tests(ctx, py)
+    lib_newick.none_defaults(ctx, py, mods=("trees", "text_formats"))
+    P = ctx.program()
+    lib_module.format_types(ctx, P)
+    lib_order.memcpy_alias(ctx, P)
+    lib_order.bookmark_cursor(ctx, P)
+    lib_order.comparators(ctx, P)
+    lib_schema.argname(ctx, P, tus=("tables",))
     lib_py.unused_params(ctx, py, mods=("text_formats",))
